@@ -11,6 +11,7 @@ import itertools
 import os
 import traceback
 import warnings
+import zlib
 
 import numpy as np
 
@@ -534,7 +535,7 @@ def check_state(hist):
             v.append({"key": "fox/empty-word", "msg": "differential('') = %r, expected zeros" % (e0.tolist(),)})
 
     o = "%s|%s|%d|%s" % (cls, str(T.dtype), len(letters), ",".join(sorted({x["key"].split("/")[1] for x in v})))
-    return {"v": v, "key": key, "ops": ops, "t": ncalls, "o": o + "|" + str(hash(key) % 997), "nt": True}
+    return {"v": v, "key": key, "ops": ops, "t": ncalls, "o": o + "|" + str(zlib.crc32(key.encode()) % 997), "nt": True}
 
 
 def case_state(hist):
@@ -807,9 +808,10 @@ def run(ctx):
         roots = []
         dims = [1, 2, 3] if q else [1, 2, 3, 4, 5]
         for n in dims:
-            roots.append(root("gl", n, "simple", 4, ALL, irreps=[3] if q else [2, 3, 4, 5], rich=not q))
+            roots.append(root("gl", n, "simple", 4, [0, 2, 3, 5] if (q and n == 1) else ALL,
+                              irreps=[3] if q else [2, 3, 4, 5], rich=not q))
             roots.append(root("gl", n, "long", 4, [0, 3, 5] if q else ALL))
-        roots.append(root("lorentz", 3, "simple", 4, ALL, rich=not q))
+        roots.append(root("lorentz", 3, "simple", 4, [0, 1, 2, 3] if q else ALL, rich=not q))
         roots.append(root("lorentz", 4, "simple", 4, [0, 1, 3] if q else ALL))
         dom = {"dimensions": dims, "names": NAMES, "matrix alphabet": alpha_doc,
                "word length": 4, "words per 2-generator state": nw(4), "roots": len(roots),
